@@ -83,6 +83,6 @@ def run(ctx: core.Ctx) -> int:
                    construct="posterior covariance",
                    msg=f"posterior covariance normalises to  {cf!r} ; accepted forms: " + " | ".join(f"{nm}: {w!r}" for nm, w in want_cov))
     ctx.floor("UPD-FORM", n + 2 * upd, 4, "S, y, posterior state, posterior covariance")
-    ctx.floor("ARR-MM", scenarios.count(it, "ARR-MM", "sensor_model"), 7, "matrix products in sensor_model")
-    ctx.floor("ARR-EW", scenarios.count(it, "ARR-EW", "sensor_model"), 4, "sums/differences in sensor_model")
+    ctx.floor("ARR-MM", scenarios.count(it, "ARR-MM", "sensor_model"), 4, "matrix products in sensor_model")
+    ctx.floor("ARR-EW", scenarios.count(it, "ARR-EW", "sensor_model"), 2, "sums/differences in sensor_model")
     return core.finish(ctx, explanation="E2 axis typing + E3 normal forms of sensor_model's records and results", **META)
